@@ -176,6 +176,71 @@ def check_digraph(g, be):
     return bad
 
 
+def check_nested(g0):
+    """sub-graphs whose edges leave the graph: on every level of the restructured hierarchy, the subset queries on the whole
+    level and on its head against the definition evaluated over the hierarchy (the entries of a subset that nothing in its own
+    level jumps into are the blocks of the nearest enclosing level that jump to the enclosing region)"""
+    from rtc import cfgpass
+    bad = []
+    scfg, _ = cfgpass.make_scfg(g0, "plain")
+    try:
+        scfg.restructure()
+    except Exception:
+        return bad        # acceptance is C02's business
+
+    def expected_entries(chain):
+        # chain: [(graph dict, region name inside it), ...] from the innermost enclosing level outwards
+        for pg, rn in chain:
+            outs = sorted(o for o, b in pg.items() if o != rn and rn in b._jump_targets)
+            if outs:
+                return outs
+        return []
+
+    def walk(level, chain):
+        keys = set(level.graph)
+        if chain:
+            for sub in (set(keys), {level.find_head()}):
+                inside_entries = sorted(o for o in keys - sub if sub & set(level.graph[o]._jump_targets))
+                inside_headers = sorted({t for o in keys - sub for t in level.graph[o]._jump_targets if t in sub})
+                try:
+                    h, e = level.find_headers_and_entries(set(sub))
+                except Exception as ex:
+                    bad.append(('find_headers_and_entries-nested', {'raised': repr(ex)[:100], 'subset': sorted(sub)}))
+                    continue
+                want_h = inside_headers or [level.find_head()]
+                want_e = inside_entries if inside_headers else expected_entries(chain)
+                if h != want_h or e != want_e:
+                    bad.append(('find_headers_and_entries-nested', {'level': chain[0][1], 'subset': sorted(sub), 'got': [h, e], 'want': [want_h, want_e]}))
+        for k, b in level.graph.items():
+            if type(b).__name__ == 'RegionBlock' and b.subregion is not None:
+                walk(b.subregion, [(level.graph, k)] + chain)
+    walk(scfg, [])
+    return bad
+
+
+def work_nested(args):
+    from rtc import cfgpass
+    import random
+    n, start, stop, seed = args
+    out = {'graphs': 0, 'nontrivial': 0, 'fails': []}
+    if start is None:
+        rng = random.Random(seed)
+        gs = [cfgpass.to_named(cfgpass.random_closed(n, rng)) for _ in range(stop)]
+    else:
+        gs = []
+        for idx in range(start, stop):
+            succ = cfgpass.graph_from_index(n, idx)
+            if cfgpass.is_closed(succ):
+                gs.append(cfgpass.to_named(succ))
+    for g0 in gs:
+        out['graphs'] += 1
+        out['nontrivial'] += 1 if cfgpass.nontrivial(g0) else 0
+        for q, detail in check_nested(g0):
+            out['fails'].append({'query': q, 'graph': {k: list(v) for k, v in g0.items()}, 'backedges': {}, 'detail': detail, 'nested': True})
+            break
+    return out
+
+
 def be_variants(g):
     yield {}
     for k, v in g.items():
@@ -227,4 +292,18 @@ def run(pool, tier, seed):
         if r['samples'] and len(d['samples']) < 3:
             d['samples'] += r['samples']
     d['exhaustive'] = all(s['stride'] == 1 for s in scope)
+    # nested levels of restructured closed CFGs (all with <= 4 blocks, random larger ones)
+    from rtc import cfgpass
+    nt = []
+    for n in range(1, 5):
+        raw = cfgpass.raw_count(n)
+        step = max(1, raw // 32)
+        nt += [(n, s_, min(raw, s_ + step), seed) for s_ in range(0, raw, step)]
+    nt += [(n, None, 40 if tier == 'quick' else 400, seed * 31 + n) for n in (5, 6, 7, 8, 9, 10)]
+    rn = pool.map(work_nested, nt, chunksize=1)
+    d['nested_graphs'] = sum(r['graphs'] for r in rn)
+    d['graphs'] += d['nested_graphs']
+    d['nontrivial'] += sum(r['nontrivial'] for r in rn)
+    for r in rn:
+        d['fails'] += r['fails']
     return d
